@@ -1,0 +1,8 @@
+//go:build verif
+
+// Contracts for the gowp verifier (/verif): comment-only file, compiled only with -tags verif.
+package credentials
+
+//@ func credentials.isNativeEndianLittle() (r)
+//@   trusted reads the byte order of the machine through unsafe.Pointer (outside the subset); true on amd64
+//@   pure
